@@ -7,7 +7,7 @@ from .common import *
 
 PID = "C08"
 META = {
-    "explanation": "Static analysis of the sorter's spill control on the MIR of the current tree: the condition of Sorter::insert is evaluated symbolically over its three boolean atoms (fits, threshold_exceeded, allow_realloc) — all 8 rows — and must equal `no spill iff fits or (not exceeded and allow)`, with write_chunk preceding the insert on every spill row; the threshold compares buffer capacity with the configured budget, clamped from below; the buffer only grows by a constant factor 2 from the non-fitting branch of Entries::insert; after a spill the chunk-merge trigger is `chunks.len() >= max_nb_chunks` (clamped to >= 1) and a chunk merge drains all chunks and pushes one; the budget-related settings survive build() and chunk_creator(); every chunk pushed comes from exactly one ChunkCreator::create call and the Chunk type has no other constructor in generic code (parametricity: bounds are only Write+Seek+Read). The numeric high-water marks are not computed.",
+    "explanation": "Static analysis of the sorter's spill control on the MIR of the current tree: the condition of Sorter::insert is evaluated symbolically over its three boolean atoms (fits, threshold_exceeded, allow_realloc) — all 8 rows — and must equal `no spill iff fits or (not exceeded and allow)`, with write_chunk preceding the insert on every spill row; the threshold compares buffer capacity with the configured budget, clamped from below; the buffer only grows by a constant factor 2 from the non-fitting branch of Entries::insert; after a spill the chunk-merge trigger is `chunks.len() >= max_nb_chunks` (clamped to >= 1) and a chunk merge drains all chunks and pushes one; the budget-related settings survive build() and chunk_creator(); every chunk pushed comes from exactly one ChunkCreator::create call and the Chunk type has no other constructor in generic code (parametricity: bounds are only Write+Seek+Read). The numeric high-water marks are not computed. A spill streams through the chunk Writer: its block-cut rules (shared with C15) and file-wellformedness rules (rules/shared.py) are re-run, since a Writer that never cuts a block buffers the whole chunk.",
     "assumptions": ["entries small relative to the budget (the statement's precondition)", "allocator returns what was requested"],
 }
 
@@ -22,6 +22,10 @@ def run(ck):
         # a spill leaves the buffer empty: both counters zeroed (shared with C07-R2)
         from .c07 import r2_clear
         ck.guard("C08-R3", r2_clear, ck, F, "C08-R3")
+        from . import shared
+        # the chunk Writer cuts its blocks (what keeps a spill from buffering a whole chunk) and records them
+        shared.block_cut(ck, F, "C08-R7")
+        shared.file_wellformed(ck, F, "C08-R7")
         ck.guard("C08-R4", r4_chunk_cap, ck, F)
         ck.guard("C08-R5", r5_creator, ck, F)
         ck.guard("C08-R6", r6_plumb, ck, F)
